@@ -26,7 +26,7 @@ EXPLANATION = (
     "the density at fixed roughness). Bulk rates: the bulk kernels call the same point function with the same argument "
     "wiring as the spectral kernels and reduce with sum_f sum_d x*df*dd; imbalance = generation + dissipation - dE/dt; "
     "every point loop reads its inputs only at its own point index and carries no state between iterations. "
-    "Not decided: magnitudes (e.g. the critical-height factor's value)."
+    "Bulk sums and point loops cover whole axes; the four entry points that estimate a missing roughness forward the caller's forcing type. Not decided: magnitudes (e.g. the critical-height factor's value)."
 )
 
 
